@@ -1,13 +1,141 @@
 package checks
 
 import (
+	"encoding/json"
+	"fmt"
+	"math/rand"
+	"os"
 	"path/filepath"
+	"time"
+
+	"verif/harness/internal/agent"
+	"verif/harness/internal/e2e"
 
 	"verif/harness/internal/core"
 )
 
 func init() {
 	Checks["C03"] = C03
+	Workers["e2e-bess-scope"] = e2eBessScopeWorker
+}
+
+// e2eBessScopeWorker replays the scripts TLC generated from spec/BessScript.tla (those whose index is Shard modulo Of)
+// into the real agent on the BESS datapath.
+func e2eBessScopeWorker(args []string) error {
+	var p Up4ScopeParams
+	if err := json.Unmarshal([]byte(args[0]), &p); err != nil {
+		return err
+	}
+
+	rng := rand.New(rand.NewSource(p.Seed))
+	sum := E2ESummary{Stats: map[string]int{}}
+
+	defer func() {
+		b, _ := json.Marshal(sum)
+		_ = os.WriteFile(p.Trace+".summary", b, 0o644)
+	}()
+
+	var seqs [][]string
+	if b, err := os.ReadFile(p.Scripts); err != nil || json.Unmarshal(b, &seqs) != nil || len(seqs) == 0 {
+		sum.Err = "no scripts"
+		return fmt.Errorf("no scripts in %s", p.Scripts)
+	}
+
+	cfg := agent.Cfg{N4Addr: p.N4Addr, Datapath: "bess", LogLevel: "warn", ReadTimeout: 120, RespTimeout: "2s", MaxReqRetries: 5}
+	if rng.Intn(2) == 0 {
+		cfg.UEIPAlloc, cfg.UEPool = true, "10.241.0.0/16"
+	}
+
+	w, err := e2e.NewWorld(filepath.Join(p.Dir, "w"), p.AgentBin, p.Trace, cfg, int(p.Seed%1000)*1000+1)
+	if err != nil {
+		sum.Err = err.Error()
+		return err
+	}
+
+	defer func() {
+		sum.Lines, sum.Steps, sum.Accepted, sum.Died = w.Lines, w.Steps, w.Accepted, w.Died
+		w.Close()
+	}()
+
+	if err := w.StartAgent(); err != nil {
+		sum.Err = err.Error()
+		return err
+	}
+
+	g := e2e.NewGen(w, rng.Int63(), e2e.GenOpt{Peers: 2, MaxSessions: 10, UEAlloc: cfg.UEIPAlloc})
+	shape := rng.Int63()
+	assoc := map[string]bool{}
+	ensure := func(peer string) {
+		if !assoc[peer] {
+			w.Assoc(peer)
+			assoc[peer] = true
+		}
+	}
+
+	kinds := map[string]int{"ufar": 0, "uqer": 1, "updr": 2, "add": 3, "rm": 4, "newcp": 5}
+
+	for idx, sq := range seqs {
+		if idx%p.Of != p.Shard || w.Died {
+			continue
+		}
+
+		ensure("p1")
+		ensure("p2")
+
+		var sa, sb *e2e.GSession
+
+		for k, op := range sq {
+			if w.Died {
+				break
+			}
+
+			g.Reseed(shape + int64(k)*131) // the same script step draws the same values in every script
+
+			switch {
+			case op == "EA":
+				sa = g.EstablishOn("p1")
+			case op == "EB":
+				sb = g.EstablishOn("p2")
+			case op == "DA" && sa.IsLive():
+				g.DeleteSession(sa)
+			case op == "DB" && sb.IsLive():
+				g.DeleteSession(sb)
+			case op == "XA":
+				w.Release("p1")
+				assoc["p1"] = false
+				g.Forget("p1")
+			case op == "KILL":
+				w.KillAgent()
+
+				if err := w.StartAgent(); err != nil {
+					sum.Err = err.Error()
+					return err
+				}
+
+				assoc = map[string]bool{}
+				g.Forget("")
+			case len(op) > 2 && op[0] == 'A' && sa.IsLive():
+				g.ModifyKind(sa, kinds[op[2:]])
+			case len(op) > 2 && op[0] == 'B' && sb.IsLive():
+				g.ModifyKind(sb, kinds[op[2:]])
+			}
+		}
+
+		// back to the empty state
+		for _, s := range []*e2e.GSession{sa, sb} {
+			if s.IsLive() && !w.Died {
+				g.DeleteSession(s)
+			}
+		}
+
+		sum.Scenarios++
+	}
+
+	for k, v := range g.Stats {
+		sum.Stats[k] += v
+	}
+
+	return nil
 }
 
 // C03: BESS tables are exactly the image of the live sessions' rules.
@@ -19,11 +147,43 @@ func C03(c *core.Ctx) {
 
 	c.SetCov("rule", "seeded randomised PFCP histories (1-3 peers, up to 5 live sessions, create/update/remove of PDR/FAR/QER, rejected requests, "+
 		"agent kill + restart against the populated datapath) executed against the real agent process; every step's BESS tables judged by TablesAreImage; "+
+		"in addition (GEN) TLC enumerates from spec/BessScript.tla every behaviour of 4 (thorough: 5) operations over {establish A / B, Update FAR, Update QER, Update PDR, new bearer, "+
+		"bearer removed, new CP F-SEID, delete, association release, SIGKILL + restart} for two sessions of different associations (831 / 6 884 scripts) and the harness replays each into the real agent; "+
 		"evaluations = script steps; distinct_nontrivial = steps that were accepted session requests")
 
-	res := runE2EShards(c, "e2e-rand", nshards, "TraceE2E_C03.cfg", func(i int) interface{} {
+	// GEN: TLC enumerates the scripts (spec/BessScript.tla), the harness replays them into the real agent
+	scopeShards, genCfg := 5, "MCBessScript.cfg"
+	if c.Thorough() {
+		scopeShards, genCfg = 14, "MCBessScript5.cfg"
+	}
+
+	scripts := filepath.Join(c.Scratch, "scripts.json")
+
+	if c.ReplayDir == "" {
+		gr, err := c.RunTLC(core.TLCRun{Module: "BessScript", Cfg: genCfg, Workers: 1, HeapMB: 1024, Timeout: 5 * time.Minute, Label: "gen"})
+		if err != nil || !gr.OK() {
+			c.Inconclusive("GEN: TLC did not enumerate the scripts of BessScript")
+			scopeShards = 0
+		} else {
+			n, err := writeScripts(gr.OutputPath, scripts)
+			if err != nil || n == 0 {
+				c.Inconclusive("GEN: no scripts in TLC's output: %v", err)
+				scopeShards = 0
+			}
+
+			c.AddCount("gen_scripts", int64(n))
+			c.AddTLC("gen", gr)
+		}
+	}
+
+	res := runE2EMixed(c, nshards+scopeShards, "TraceE2E_C03.cfg", func(i int) (string, interface{}) {
 		dir, trace := shardDir(c, i)
-		return E2EParams{Dir: dir, Trace: trace, AgentBin: filepath.Join(c.BinDir, "verif-agent"), N4Addr: n4For(i),
+		if i >= nshards {
+			return "e2e-bess-scope", Up4ScopeParams{Dir: dir, Trace: trace, AgentBin: filepath.Join(c.BinDir, "verif-agent"), N4Addr: n4For(i), Seed: c.Seed*1000 + 30 + int64(i),
+				Scripts: scripts, Shard: i - nshards, Of: scopeShards}
+		}
+
+		return "e2e-rand", E2EParams{Dir: dir, Trace: trace, AgentBin: filepath.Join(c.BinDir, "verif-agent"), N4Addr: n4For(i),
 			Seed: c.Seed*1000 + int64(i), Scenarios: scenarios, Steps: steps, Rejects: true, Kill: true, Alloc: 1, EndMarker: 1, PoolLens: []int{24, 28}, Notify: true}
 	})
 	judgeE2E(c, res, map[string]bool{"InEnvelope": true, "EnvDistinctMatchKeys": true})
